@@ -143,6 +143,18 @@ func (v *c14View) ExitFrom(fn *ssa.Function, cu *cut) bool {
 	return r
 }
 
+// c14NilReturnReach: from the start points a Return of root whose error result
+// may be nil is reachable without hitting the cut.  Returns that provably
+// carry a non-nil error (constructed, or returned under their own != nil test)
+// do not count.
+func c14NilReturnReach(V *c14View, starts []c14Pt, root *ssa.Function, cu *cut) bool {
+	r, _ := V.walk(starts, func(in ssa.Instruction) bool {
+		ret, ok := in.(*ssa.Return)
+		return ok && ret.Parent() == root && V.retErrStatusAt(ret, V.cur) != NonNil
+	}, cu, false)
+	return r
+}
+
 func c14FnSet(v *c14View) map[*ssa.Function]bool {
 	out := map[*ssa.Function]bool{}
 	for _, f := range v.Funcs() {
@@ -724,23 +736,9 @@ func c14R3Updater(c *Ctx, u *c14Upd, getGen *ssa.Function) {
 	}
 	c.Check(R, upn+"|delete-only-if-gc-and-old-index", deletes[0].Pos(), okGuard,
 		ifelse(okGuard, "the delete is reached only with SkipReferrersGC==false and oldIndexDesc!=nil", "the old index can be deleted with SkipReferrersGC set, or dereferenced when no old index exists"))
-	errVals := map[ssa.Value]bool{}
-	for _, f := range V.Funcs() {
-		if !u.UpFns[f] {
-			continue
-		}
-		AllInstrs(f, func(in ssa.Instruction) {
-			if v, isV := in.(ssa.Value); isV && isErrorType(v.Type()) {
-				switch in.(type) {
-				case *ssa.Call, *ssa.Extract:
-					errVals[v] = true
-				}
-			}
-		})
-	}
-	_, errNonNil := V.NilTests(errVals)
-	cuDone := newCut().Calls(deletes).Edges(skipT...).Edges(descNil...).Edges(tolE...).Edges(errNonNil...)
-	okIff := !V.ExitFrom(Up, cuDone)
+	// a return that may carry a nil error, reached without delete / skip / no-old-index / nothing-changed
+	cuDone := newCut().Calls(deletes).Edges(skipT...).Edges(descNil...).Edges(tolE...)
+	okIff := !c14NilReturnReach(V, V.entryOf(Up), Up, cuDone)
 	c.Check(R, upn+"|superseded-index-deleted", deletes[0].Pos(), okIff,
 		ifelse(okIff, "every successful path either deletes the old index, or GC is skipped, or there was no old index, or nothing changed", "a successful update can return without deleting the superseded index although GC is enabled and an old index exists (dangling index manifests accumulate)"))
 	// a failed delete is reported as ReferrersError{Op: opDeleteReferrersIndex}
@@ -1060,20 +1058,11 @@ func c14R3Callers(c *Ctx, us []*c14Upd) {
 				ifelse(okG, fmt.Sprintf("every path to the index update (from %d entry point(s)) has seen the Referrers API as not supported", len(ents)), "the client-side index is updated although the Referrers API may be known as supported: "+why))
 			// converse: with a subject and no API the update is not skipped
 			_, avail := c14EvidenceV(V, supported)
-			errVals := map[ssa.Value]bool{}
-			V.Instrs(func(in ssa.Instruction) {
-				if v, isV := in.(ssa.Value); isV && isErrorType(v.Type()) {
-					switch in.(type) {
-					case *ssa.Call, *ssa.Extract:
-						errVals[v] = true
-					}
-				}
-			})
-			_, errNonNil := V.NilTests(errVals)
-			cu := newCut().Calls(ucalls).Edges(avail...).Edges(errNonNil...)
+			cu := newCut().Calls(ucalls).Edges(avail...)
 			okC := len(subjNonNil) > 0
 			for _, e := range subjNonNil {
-				if V.ExitFromEdge(e, cu) {
+				// a return that may carry a nil error (an error that is tested and then dropped is no excuse)
+				if c14NilReturnReach(V, V.atBlock(e.To), f, cu) {
 					okC = false
 				}
 			}
